@@ -376,6 +376,10 @@ def check(ctx, run):
     ok = bool(pts) and all(m["params"][2]["ct"] == "int" for m in pts if len(m["params"]) == 3)
     run.ob("R3", "plugins receive the index by value", "include/CppUTest/TestPlugin.h:TestPlugin::parseAllArguments", ok, witness=[[p["ct"] for p in m["params"]] for m in pts])
 
+    # the TEST(group, name) slicing calls subString/subStringFromTill with positions taken from the text: they must be total
+    from .C13 import substring_bound_rule
+    substring_bound_rule(prog, run, "R3")
+
     # ---------------- R4 ----------------------------------------------------
     groups = {}
     for p in enumerate_paths(parse):
